@@ -687,6 +687,7 @@ func runC15(c *Check, a *Analysis) {
 	ruleDrainLoops(c, a, "R-CLOSE-ALL")
 	ruleShrinkingBound(c, a, "R-CLOSE-ALL")
 	ruleFailedOpenUnregisters(c, a, "R-NUMCALLS")
+	ruleCloseAckUnregisters(c, a, "R-NUMCALLS")
 	cl := p.Fn("(*Transport).Close")
 	if cl == nil {
 		c.Undecided("R-CLOSE-ALL", "(*Transport).Close not found")
